@@ -147,6 +147,7 @@ SerKey(kk) == IF kk[2] \in Machines THEN MD(kk[2]).selfser ELSE kk[1] \in Machin
 QPayloads(sq) == {sq[k].occ.p : k \in 1..Len(sq)}
 \* number of stored occurrences whose event type counts its live objects (C20)
 CountedIn(sq) == Cardinality({k \in 1..Len(sq) : sq[k].occ.t \in Def.counted})
+LastPos(sq, x) == IF \E k \in 1..Len(sq) : sq[k] = x THEN CHOOSE k \in 1..Len(sq) : sq[k] = x /\ \A j \in (k+1)..Len(sq) : sq[j] # x ELSE 0
 PoolPayloads(sq) == {sq[k].occ.p : k \in {kk \in 1..Len(sq) : sq[kk].kind = "ev" /\ ~sq[kk].marked}}
 
 (* --algorithm MSM {
@@ -171,6 +172,7 @@ variables
    dispd = [ii \in Insts |-> [mm \in Machines |-> <<>>]],      \* payloads dispatched, in order
    defd = [ii \in Insts |-> {}],                                \* payloads that were deferred at least once
    defseq = [ii \in Insts |-> <<>>],                            \* every deferral [p, t] in order (first occurrences = arrival order)
+   ins = [ii \in Insts |-> <<>>],                               \* backmp11: payloads in the order they were put into an event pool (a re-deferred occurrence is put in again)
    hdl = [ii \in Insts |-> <<>>],                               \* previously deferred occurrences [p, t] in the order they were finally handled
    dropped = [ii \in Insts |-> {}],                             \* payloads swallowed by a blocking state or a documented queue reset
    pre = [blocked |-> FALSE, quiet |-> TRUE, act |-> <<>>, all |-> <<>>],
@@ -276,7 +278,7 @@ CB4: return;
 procedure Enqueue(e_i, e_m, e_occ)
 {
 E1: if (IsB) { mq[e_i][e_m] := Append(mq[e_i][e_m], [occ |-> e_occ, src |-> {"Q"}, bnd |-> e_i]); }
-    else { pool[e_i][e_m] := Append(pool[e_i][e_m], PoolEv(e_occ, seqcnt[e_i][e_m] - 1)); };
+    else { pool[e_i][e_m] := Append(pool[e_i][e_m], PoolEv(e_occ, seqcnt[e_i][e_m] - 1)); ins[e_i] := Append(ins[e_i], e_occ.p); };
     stored[e_i][e_m] := Append(stored[e_i][e_m], e_occ.p);
 E2: return;
 }
@@ -307,7 +309,8 @@ procedure RunAct(a_i, a_m, a_acts, a_occ)
 A2: while (a_k <= Len(a_acts)) {
        if (a_acts[a_k] = "defer") {
           if (IsB) { dq[a_i][a_m] := Append(dq[a_i][a_m], [occ |-> a_occ, seq |-> curseq[a_i][a_m] + 1, bnd |-> a_i]); }
-          else { pool[a_i][a_m] := Append(pool[a_i][a_m], PoolEv(a_occ, IF processing[a_i][a_m] THEN seqcnt[a_i][a_m] ELSE seqcnt[a_i][a_m] - 1)); };
+          else { pool[a_i][a_m] := Append(pool[a_i][a_m], PoolEv(a_occ, IF processing[a_i][a_m] THEN seqcnt[a_i][a_m] ELSE seqcnt[a_i][a_m] - 1));
+                 ins[a_i] := Append(ins[a_i], a_occ.p); };
           obs := Append(obs, [k |-> "deferred", i |-> a_i, m |-> a_m, id |-> "action", e |-> a_occ.t, p |-> a_occ.p, r |-> TRUE, x |-> 0]);
           defd[a_i] := defd[a_i] \cup {a_occ.p}; defseq[a_i] := Append(defseq[a_i], [p |-> a_occ.p, t |-> a_occ.t]);
        } else {
@@ -487,7 +490,8 @@ R2:    if (exc) { return; } else if (ret = 0) { ret := 2; goto R9; };
 R2x: if (r_row.xp # "") {
         obs := Append(obs, [k |-> "xptake", i |-> r_i, m |-> r_m, id |-> r_row.xp, e |-> r_occ.t, p |-> r_c.idx,
                             r |-> \E rr \in 1..NReg(r_row.src) : active[r_i][r_row.src][rr] = r_row.xp, x |-> r_r]); };
-R3: if (r_occ.p \in defd[r_i]) { hdl[r_i] := Append(hdl[r_i], [p |-> r_occ.p, t |-> r_occ.t, m |-> r_m]); };
+R3: if (r_occ.p \in defd[r_i] /\ ~(\E kk \in 1..Len(r_row.a) : r_row.a[kk] = "defer")) {     \* a row that defers again does not "handle" the occurrence
+       hdl[r_i] := Append(hdl[r_i], [p |-> r_occ.p, t |-> r_occ.t, m |-> r_m, a |-> LastPos(ins[r_i], r_occ.p)]); };
     obs := Append(obs, [k |-> "take", i |-> r_i, m |-> r_m, id |-> IF r_c.tab = "itab" THEN r_c.st ELSE r_c.tab, e |-> r_occ.t, p |-> r_c.idx, r |-> r_row.int, x |-> r_r]);
 R3x: if (r_row.int) {
        call RunAct(r_i, r_m, r_row.a, r_occ);
@@ -596,7 +600,7 @@ P1: if (IsB) {
           ret := 1; return; };
     } else if ("pool" \notin p_src) {
        if (processing[p_i][p_m] \/ ("sub" \notin p_src /\ IsDeferredM(p_i, p_m, p_occ.t))) {
-          pool[p_i][p_m] := Append(pool[p_i][p_m], PoolEv(p_occ, seqcnt[p_i][p_m] - 1));
+          pool[p_i][p_m] := Append(pool[p_i][p_m], PoolEv(p_occ, seqcnt[p_i][p_m] - 1)); ins[p_i] := Append(ins[p_i], p_occ.p);
           if (~processing[p_i][p_m]) {
              obs := Append(obs, [k |-> "deferred", i |-> p_i, m |-> p_m, id |-> "state", e |-> p_occ.t, p |-> p_occ.p, r |-> TRUE, x |-> 0]);
              defd[p_i] := defd[p_i] \cup {p_occ.p}; defseq[p_i] := Append(defseq[p_i], [p |-> p_occ.p, t |-> p_occ.t]);
@@ -688,7 +692,7 @@ M0: while (TRUE) {
           stored := [ii \in Insts |-> [mm \in Machines |-> <<>>]];
           dispd := [ii \in Insts |-> [mm \in Machines |-> <<>>]];
           defd := [ii \in Insts |-> {}]; dropped := [ii \in Insts |-> {}];
-          defseq := [ii \in Insts |-> <<>>]; hdl := [ii \in Insts |-> <<>>]; used := [ii \in Insts |-> ii = 0];
+          defseq := [ii \in Insts |-> <<>>]; hdl := [ii \in Insts |-> <<>>]; ins := [ii \in Insts |-> <<>>]; used := [ii \in Insts |-> ii = 0];
           gvmemo := [gg \in Def.guards |-> "u"];
           lastcall := [op |-> "none", i |-> 0, e |-> "", p |-> 0]; pre := [blocked |-> FALSE, quiet |-> TRUE, act |-> <<>>, all |-> <<active, mq, dq, pool, hist, running>>];
        } or {
@@ -793,7 +797,7 @@ M0: while (TRUE) {
              mq[cc.j] := mq[cc.i]; dq[cc.j] := dq[cc.i]; curseq[cc.j] := curseq[cc.i];      \* closures keep the object they were bound to
              pool[cc.j] := pool[cc.i]; seqcnt[cc.j] := seqcnt[cc.i]; hist[cc.j] := hist[cc.i];
              ledger[cc.j] := ledger[cc.i]; encnt[cc.j] := encnt[cc.i]; sawexc[cc.j] := sawexc[cc.i]; lastcfg[cc.j] := lastcfg[cc.i]; stored[cc.j] := stored[cc.i]; dispd[cc.j] := dispd[cc.i];
-             defd[cc.j] := defd[cc.i]; dropped[cc.j] := dropped[cc.i]; defseq[cc.j] := defseq[cc.i]; hdl[cc.j] := hdl[cc.i];
+             defd[cc.j] := defd[cc.i]; dropped[cc.j] := dropped[cc.i]; defseq[cc.j] := defseq[cc.i]; hdl[cc.j] := hdl[cc.i]; ins[cc.j] := ins[cc.i];
              used[cc.j] := TRUE;
              ret := 0;
              \* move construction / move assignment: the target takes over the source's state, the moved-from machine is destroyed afterwards
